@@ -71,6 +71,13 @@ fn natural_exponents(p: &AnyPoly) -> bool {
 }
 
 fn bound(rng: &mut Rng, any: bool) -> f64 {
+    // one bound in eight of an extreme magnitude (2^-70..2^-34, either sign, or 2^8..2^14): intervals far
+    // narrower or wider than 1
+    if rng.chance(1, 8) {
+        let m = if rng.chance(2, 3) { 2f64.powi(-(rng.range(34, 70) as i32)) } else { 2f64.powi(rng.range(8, 14) as i32) };
+        let m = m * rng.range(1, 3) as f64;
+        return if any && rng.chance(1, 2) { -m } else { m };
+    }
     if any {
         match rng.below(8) {
             0 => 0.0,
@@ -89,7 +96,10 @@ pub const FIXED_INTER: &[&str] = &[
     "b + a", "x^-1",
 ];
 pub const FIXED_SIMPLE: &[&str] =
-    &["5", "x^3 + x^2", "x", "", "0", "-x", "3x^2 - 2x + 1", "x^0", "2.5y^4 - y + .5", "t^9", "x^2 + x^2", "7 - 7"];
+    &[
+    // the largest exponents the parser accepts (MAX_POWER = 65536) and its neighbours
+    "x^65536", "3x^65535 + x", "x^65537", "2y^065536 - y^65535",
+    "5", "x^3 + x^2", "x", "", "0", "-x", "3x^2 - 2x + 1", "x^0", "2.5y^4 - y + .5", "t^9", "x^2 + x^2", "7 - 7"];
 
 fn emit_for(rng: &mut Rng, text: &str, p: &AnyPoly, emit: &mut dyn FnMut(String), all: bool) {
     let ps = req_any(p);
